@@ -17,11 +17,19 @@ package main
 // sites does not. A fact that cannot be established is emitted as `false` with
 // a note, never silently: the theorems of Spine/Props/C15Gen.lean then no
 // longer check.
+//
+// The two mutexes of the bus are identified BY ROLE (held at the accesses to the
+// handler list / held at the handler invocations). Further mutexes are tolerated
+// only as LEAF LOCKS, further fields only as state confined to the sections of
+// one leaf lock: see leafProblems and the text of stateIsTwoMutexesAndList. The
+// leaf sections are taken out of the traces before the facts are computed, so
+// everything else is judged exactly as it is on a bus without them.
 
 import (
 	"fmt"
 	"go/ast"
 	"path/filepath"
+	"sort"
 	"strings"
 )
 
@@ -59,18 +67,134 @@ func typeString(e ast.Expr) string {
 	return fmt.Sprintf("%T", e)
 }
 
+// busTrace: one bus method run through the interpreter as an entry point (helpers inlined).
+type busTrace struct {
+	method  string
+	order   int
+	ev      []aevent
+	endHeld map[string]int
+	cont    map[pathElem]bool
+}
+
+func hasStr(xs []string, x string) bool {
+	for _, y := range xs {
+		if y == x {
+			return true
+		}
+	}
+	return false
+}
+
+// stripPath drops the path elements that only say "after an arm that returned": whether that arm released what it
+// had to is checked separately (leak events), so the rest of the frame counts as the same path as what precedes it.
+func stripPath(p []pathElem, cont map[pathElem]bool) []pathElem {
+	var out []pathElem
+	for _, e := range p {
+		if !cont[e] {
+			out = append(out, e)
+		}
+	}
+	return out
+}
+
+// leafProblems: why the critical sections of mutex x in this trace are not all LEAF sections (empty: they are).
+// A leaf section is a Lock…Unlock (RLock…RUnlock) pair of x that the entry method itself closes on every path —
+// the release lies on the same path as the acquisition (or is deferred unconditionally, or is the release of an
+// exit path that returns at once), nothing returns holding x, x is not held when the method ends — and while x is
+// held nothing is recorded but calls to inlined helpers and accesses to watched fields: no handler invocation, no
+// access to the handler list, no lock operation on any mutex, no blocking operation, no `go`, no unaccounted call.
+// accessed receives the watched fields touched while x is held.
+func leafProblems(tr *busTrace, x string, accessed map[string]bool) (probs []string) {
+	bad := func(format string, a ...any) {
+		if len(probs) < 4 {
+			probs = append(probs, fmt.Sprintf("%s: ", tr.method)+fmt.Sprintf(format, a...))
+		}
+	}
+	var cur *aevent
+	for i := range tr.ev {
+		e := &tr.ev[i]
+		if (e.kind == "lock" || e.kind == "exitlock") && e.name == x {
+			if e.async {
+				bad("%s of %s inside a go statement", e.op, x)
+			}
+			switch e.op {
+			case "Lock", "RLock":
+				if hasStr(e.held, x) || cur != nil {
+					bad("%s acquired while it is already held", x)
+				}
+				cur = e
+			default:
+				if cur == nil {
+					bad("%s released (%s) without a matching acquisition", x, e.op)
+					continue
+				}
+				if (cur.op == "Lock") != (e.op == "Unlock") {
+					bad("%s acquired with %s but released with %s", x, cur.op, e.op)
+				}
+				sl, su := stripPath(cur.path, tr.cont), stripPath(e.path, tr.cont)
+				switch {
+				case len(sl) == len(su) && pathPrefix(sl, su) && cur.cond == e.cond && cur.kind == e.kind:
+					cur = nil // acquired and released on the same path
+				case e.kind == "exitlock" && cur.kind == "lock" && len(su) == len(sl)+1 && pathPrefix(sl, su):
+					// the release of an exit path; the main path still holds x (the interpreter restores that)
+				default:
+					bad("%s is not released on the path it was acquired on (a conditional release or acquisition)", x)
+					cur = nil
+				}
+			}
+			continue
+		}
+		if e.kind == "leak" && e.name == x {
+			bad("a path returns holding %s", x)
+			continue
+		}
+		if !hasStr(e.held, x) {
+			continue
+		}
+		switch {
+		case e.async:
+			bad("a go statement while %s is held (%s %s)", x, e.kind, e.name)
+		case e.kind == "inline":
+		case e.kind == "faccess":
+			accessed[e.name] = true
+		case e.kind == "lock" || e.kind == "exitlock":
+			bad("%s of %s while %s is held", e.op, e.name, x)
+		case e.kind == "deliver":
+			bad("a handler invocation while %s is held", x)
+		case e.kind == "hread" || e.kind == "hwrite":
+			bad("the handler list is accessed while %s is held", x)
+		case e.kind == "block":
+			bad("blocking operation %s while %s is held", e.name, x)
+		default:
+			bad("%s %s while %s is held", e.kind, e.name, x)
+		}
+	}
+	if cur != nil || tr.endHeld[x] != 0 {
+		bad("%s is still held when the method returns", x)
+	}
+	return
+}
+
 func genEventBus(outDir string) (string, error) {
 	pkg, err := loadPkg(filepath.Join(RepoDir(), "spine"), "verif_hooks")
 	if err != nil {
 		return "", err
 	}
 	var notes []string
-	note := func(format string, a ...any) { notes = append(notes, fmt.Sprintf(format, a...)) }
+	noted := map[string]bool{}
+	note := func(format string, a ...any) { // every note once, in the order of first occurrence
+		if n := fmt.Sprintf(format, a...); !noted[n] {
+			noted[n] = true
+			notes = append(notes, n)
+		}
+	}
 
-	// ---- the state of the bus: two mutexes and the handler list (names are free)
+	// ---- the fields of the bus: mutexes, the handler list, anything else (names are free)
 	mutexes := map[string]bool{}
+	var mutexOrder []string
 	listField, levelField := "", ""
-	stateOK := false
+	var otherFields, embedded []string // otherFields: candidates for EXTRA STATE
+	otherType := map[string]string{}
 	// the bus is the value of the package variable Events; its type, fields and helpers may have any (unexported) name
 	busType := "events"
 	if t, ok := pkg.varType["Events"]; ok {
@@ -84,69 +208,326 @@ func genEventBus(outDir string) (string, error) {
 			}
 		}
 	}
+	busFound := false
 	if st := pkg.structs[busType]; st == nil {
 		note("type of the bus (%s) not found", busType)
 	} else {
-		var other []string
-		for _, fl := range st.Fields.List {
-			t := typeString(fl.Type)
-			names := []string{}
-			for _, n := range fl.Names {
-				names = append(names, n.Name)
-			}
-			if len(names) == 0 {
-				other = append(other, "embedded "+t)
-			}
-			for _, n := range names {
-				switch {
-				case t == "sync.Mutex" || t == "sync.RWMutex":
-					mutexes[n] = true
-				case strings.HasPrefix(t, "[]") && listField == "":
-					listField = n
-					if it := pkg.structs[strings.TrimPrefix(t, "[]")]; it != nil {
-						for _, f := range it.Fields.List {
-							if typeString(f.Type) == "api.EventHandlerLevel" && len(f.Names) == 1 {
-								levelField = f.Names[0].Name
-							}
-						}
+		busFound = true
+		itemLevel := func(t string) string { // the level field of the element type of a slice type
+			if it := pkg.structs[strings.TrimPrefix(t, "[]")]; it != nil {
+				for _, f := range it.Fields.List {
+					if typeString(f.Type) == "api.EventHandlerLevel" && len(f.Names) == 1 {
+						return f.Names[0].Name
 					}
-				default:
-					other = append(other, n+" "+t)
+				}
+			}
+			return ""
+		}
+		// the handler list: the slice of items that carry a level; failing that the first slice
+		for pass := 0; pass < 2 && listField == ""; pass++ {
+			for _, fl := range st.Fields.List {
+				t := typeString(fl.Type)
+				if strings.HasPrefix(t, "[]") && len(fl.Names) > 0 && listField == "" && (pass == 1 || itemLevel(t) != "") {
+					listField, levelField = fl.Names[0].Name, itemLevel(t)
 				}
 			}
 		}
-		stateOK = len(mutexes) == 2 && listField != "" && len(other) == 0
-		if !stateOK {
-			note("type of the bus: expected exactly two mutex fields and the handler list, found mutexes=%d list=%q other=%v", len(mutexes), listField, other)
+		for _, fl := range st.Fields.List {
+			t := typeString(fl.Type)
+			if len(fl.Names) == 0 {
+				embedded = append(embedded, t)
+			}
+			for _, n := range fl.Names {
+				switch {
+				case t == "sync.Mutex" || t == "sync.RWMutex":
+					mutexes[n.Name] = true
+					mutexOrder = append(mutexOrder, n.Name)
+				case n.Name == listField:
+				default:
+					otherFields = append(otherFields, n.Name)
+					otherType[n.Name] = t
+				}
+			}
 		}
 	}
-	mk := func(order int) *interp {
+	watch := map[string]bool{}
+	for _, f := range otherFields {
+		watch[f] = true
+	}
+	seen := map[ast.Node]bool{}
+	mkPlain := func(order int) *interp {
 		in := newInterp(pkg, mutexes, listField, order)
 		in.levelField = levelField
 		in.peersField = peersField
 		return in
 	}
+	mk := func(order int) *interp { // for the methods of the bus: every access to a field of the receiver is recorded
+		in := mkPlain(order)
+		in.watch, in.watchSeen, in.contElems = watch, seen, map[pathElem]bool{}
+		return in
+	}
+	levelConst := mkPlain(0).levelConst
+
+	// ---- every method of the bus type, exported or not, run as an entry point, for both orders of the abstract list
+	var busMethods []string
+	for key := range pkg.funcs {
+		if strings.HasPrefix(key, busType+".") {
+			busMethods = append(busMethods, strings.TrimPrefix(key, busType+"."))
+		}
+	}
+	sort.Strings(busMethods)
+	traces := map[string][]*busTrace{}
+	var allTraces []*busTrace
+	if busFound {
+		for _, m := range busMethods {
+			for order := 0; order < 2; order++ {
+				in := mk(order)
+				if !in.run(busType, m, nil) {
+					continue
+				}
+				tr := &busTrace{method: m, order: order, ev: in.ev, endHeld: in.held, cont: in.contElems}
+				traces[m] = append(traces[m], tr)
+				allTraces = append(allTraces, tr)
+			}
+		}
+	}
+
+	// ---- the two ROLE mutexes, by what they protect: the list mutex is the one held at the accesses to the handler
+	//      list, the dispatch mutex the one held at the handler invocations. (Several candidates — e.g. a mutex that
+	//      wraps the whole dispatch besides the dispatch mutex: the one with the tightest sections gets the role,
+	//      the other one is then an additional mutex whose sections are not leaf sections.)
+	heldCount := map[string]int{}
+	for _, tr := range allTraces {
+		for _, e := range tr.ev {
+			for _, m := range e.held {
+				heldCount[m]++
+			}
+		}
+	}
+	role := func(what string, is func(e aevent) bool, exclude string) string {
+		total, at := 0, map[string]int{}
+		for _, tr := range allTraces {
+			for _, e := range tr.ev {
+				if is(e) {
+					total++
+					for _, m := range e.held {
+						at[m]++
+					}
+				}
+			}
+		}
+		best := ""
+		for _, m := range mutexOrder {
+			if at[m] == 0 {
+				continue
+			}
+			if best == "" || at[m] > at[best] || at[m] == at[best] && (heldCount[m] < heldCount[best] || heldCount[m] == heldCount[best] && m < best) {
+				best = m
+			}
+		}
+		if best == "" && len(mutexOrder) == 2 && exclude != "" { // two mutexes: the one that has not got the other role
+			for _, m := range mutexOrder {
+				if m != exclude {
+					best = m
+				}
+			}
+		}
+		if best == "" {
+			note("no mutex of the bus is held at %s: the role cannot be attributed", what)
+		}
+		return best
+	}
+	listMu := role("the accesses to the handler list", func(e aevent) bool { return e.kind == "hread" || e.kind == "hwrite" }, "")
+	handleMu := role("the handler invocations", func(e aevent) bool { return e.kind == "deliver" }, listMu)
+	if listMu == "" && handleMu != "" {
+		listMu = role("the accesses to the handler list", func(e aevent) bool { return e.kind == "hread" || e.kind == "hwrite" }, handleMu)
+	}
+	rolesOK := listMu != "" && handleMu != "" && listMu != handleMu
+	if listMu != "" && listMu == handleMu {
+		note("one mutex (%s) is held both at the accesses to the handler list and at the handler invocations: there is no separate dispatch mutex", listMu)
+		handleMu = ""
+	}
+	var extras []string // EXTRA mutexes: every mutex field besides the two role mutexes
+	for _, m := range mutexOrder {
+		if m != listMu && m != handleMu {
+			extras = append(extras, m)
+		}
+	}
+	isExtra := func(m string) bool { return hasStr(extras, m) }
+
+	// ---- leaf sections: for every extra mutex, EVERY critical section anywhere in the type must be a leaf section
+	//      (a leaf lock can be waited for without risk only because every holder releases it without waiting)
+	leaf := map[string]bool{}
+	accessedUnder := map[string]map[string]bool{}
+	for _, x := range extras {
+		leaf[x] = true
+		accessedUnder[x] = map[string]bool{}
+		reported := map[string]bool{}
+		for _, tr := range allTraces {
+			for _, p := range leafProblems(tr, x, accessedUnder[x]) {
+				leaf[x] = false
+				if !reported[p] {
+					reported[p] = true
+					note("additional mutex %s: not a leaf lock — %s", x, p)
+				}
+			}
+		}
+	}
+	// EXTRA STATE: a field all of whose accesses (in every method) lie inside sections of one and the same extra mutex
+	owner, confined := map[string]string{}, map[string]bool{}
+	for _, f := range otherFields {
+		confined[f] = true
+	}
+	for _, tr := range allTraces {
+		for _, e := range tr.ev {
+			if e.kind != "faccess" {
+				continue
+			}
+			var xs []string
+			for _, m := range e.held {
+				if isExtra(m) {
+					xs = append(xs, m)
+				}
+			}
+			if len(xs) != 1 || e.async || owner[e.name] != "" && owner[e.name] != xs[0] {
+				if confined[e.name] {
+					note("field %s of the bus is accessed in %s outside the sections of one additional mutex (held: %v)", e.name, tr.method, e.held)
+				}
+				confined[e.name] = false
+				continue
+			}
+			owner[e.name] = xs[0]
+		}
+	}
+	for _, x := range extras { // a section that touches state which is not confined to it is not a leaf section
+		var fs []string
+		for f := range accessedUnder[x] {
+			fs = append(fs, f)
+		}
+		sort.Strings(fs)
+		for _, f := range fs {
+			if !confined[f] && leaf[x] {
+				leaf[x] = false
+				note("additional mutex %s: not a leaf lock — its sections access field %s, which is also accessed elsewhere", x, f)
+			}
+		}
+	}
+	extraStateOK := true
+	for _, f := range otherFields {
+		if !confined[f] || owner[f] != "" && !leaf[owner[f]] {
+			extraStateOK = false
+			note("field %s %s of the bus is not state confined to the leaf sections of one additional mutex", f, otherType[f])
+		}
+	}
+	allLeaf := true
+	for _, x := range extras {
+		allLeaf = allLeaf && leaf[x]
+	}
+	// every textual access to an extra mutex or to a further field must be one the interpreter has evaluated (and
+	// therefore judged): in the methods of the bus every one, elsewhere in the package those on Events or on a
+	// parameter of the bus type
+	reachOK := true
+	if len(extras)+len(otherFields) > 0 {
+		interest := map[string]bool{}
+		for _, x := range extras {
+			interest[x] = true
+		}
+		for _, f := range otherFields {
+			interest[f] = true
+		}
+		var fileNames []string
+		for base := range pkg.files {
+			fileNames = append(fileNames, base)
+		}
+		sort.Strings(fileNames)
+		for _, base := range fileNames {
+			for _, d := range pkg.files[base].Decls {
+				fd, ok := d.(*ast.FuncDecl)
+				if !ok || fd.Body == nil {
+					continue
+				}
+				isBus := recvTypeName(fd) == busType
+				busIdent := map[string]bool{"Events": true}
+				for _, fl := range fd.Type.Params.List {
+					if strings.TrimPrefix(typeString(fl.Type), "*") == busType {
+						for _, n := range fl.Names {
+							busIdent[n.Name] = true
+						}
+					}
+				}
+				ast.Inspect(fd.Body, func(n ast.Node) bool {
+					se, ok := n.(*ast.SelectorExpr)
+					if !ok || !interest[se.Sel.Name] || seen[se] {
+						return true
+					}
+					x := se.X
+					for {
+						if p, ok := x.(*ast.ParenExpr); ok {
+							x = p.X
+						} else if u, ok := x.(*ast.UnaryExpr); ok {
+							x = u.X
+						} else if st, ok := x.(*ast.StarExpr); ok {
+							x = st.X
+						} else {
+							break
+						}
+					}
+					id, _ := x.(*ast.Ident)
+					if isBus || id != nil && busIdent[id.Name] {
+						reachOK = false
+						note("%s: %s is used at a place the interpreter did not reach (%s)", pkg.fset.Position(se.Pos()).String()[len(filepath.Dir(pkg.fset.Position(se.Pos()).Filename))+1:], exprString(se), fd.Name.Name)
+					}
+					return true
+				})
+			}
+		}
+	}
+	stateOK := busFound && rolesOK && listField != "" && len(embedded) == 0 && allLeaf && extraStateOK && reachOK
+	if busFound && !stateOK {
+		note("type of the bus: expected the list mutex, the dispatch mutex, the handler list and besides them only leaf locks with the state they guard; found list mutex=%q dispatch mutex=%q list=%q additional mutexes=%v further fields=%v embedded=%v", listMu, handleMu, listField, extras, otherFields, embedded)
+	}
+
+	// the trace of a method with the leaf sections of the (type-wide) leaf locks taken out: their lock operations and
+	// everything recorded while one of them is held (by the above only calls to helpers and accesses to their state)
+	strip := func(tr *busTrace) []aevent {
+		var out []aevent
+	next:
+		for _, e := range tr.ev {
+			if (e.kind == "lock" || e.kind == "exitlock") && leaf[e.name] {
+				continue
+			}
+			for _, m := range e.held {
+				if leaf[m] {
+					continue next
+				}
+			}
+			out = append(out, e)
+		}
+		return out
+	}
+	trace := func(name string, order int) ([]aevent, bool) {
+		for _, tr := range traces[name] {
+			if tr.order == order {
+				return strip(tr), true
+			}
+		}
+		return nil, false
+	}
 
 	// ---- subscribe / unsubscribe: one critical section under the list mutex (write lock), released last,
-	//      no other lock, no handler invocation, no blocking operation
-	listMu := ""
+	//      no other lock (leaf sections aside), no handler invocation, no blocking operation
 	oneSection := func(name string) bool {
-		in := mk(0)
-		if !in.run(busType, name, nil) {
+		ev, found := trace(name, 0)
+		if !found {
 			note("method %s of the bus not found", name)
 			return false
 		}
-		seq, _ := lockSeq(in.ev)
-		ok := len(seq) == 2 && strings.HasPrefix(seq[0], "Lock:") && seq[1] == "Unlock:"+strings.TrimPrefix(seq[0], "Lock:")
+		seq, _ := lockSeq(ev)
+		ok := listMu != "" && len(seq) == 2 && seq[0] == "Lock:"+listMu && seq[1] == "Unlock:"+listMu
 		if ok {
-			mu := strings.TrimPrefix(seq[0], "Lock:")
-			if listMu == "" {
-				listMu = mu
-			}
-			ok = mu == listMu
 			// the unlock is the last thing that happens, the lock the first that touches the bus
 			first, last := -1, -1
-			for i, e := range in.ev {
+			for i, e := range ev {
 				if e.kind == "lock" {
 					if first < 0 {
 						first = i
@@ -154,7 +535,7 @@ func genEventBus(outDir string) (string, error) {
 					last = i
 				}
 			}
-			for i, e := range in.ev {
+			for i, e := range ev {
 				switch e.kind {
 				case "deliver", "block":
 					ok = false
@@ -167,39 +548,33 @@ func genEventBus(outDir string) (string, error) {
 					}
 				}
 			}
-			if in.ev[first].cond || in.ev[last].cond {
+			if ev[first].cond || ev[last].cond {
 				ok = false
 			}
 		}
 		if !ok {
-			note("%s is not exactly one critical section under the list mutex (lock operations: %v)", name, seq)
+			note("%s is not exactly one critical section under the list mutex (lock operations besides leaf sections: %v)", name, seq)
 		}
 		return ok
 	}
 	subscribeOnlyMu := oneSection("subscribe")
 	unsubscribeOnlyMu := oneSection("unsubscribe")
-	handleMu := ""
-	for m := range mutexes {
-		if m != listMu {
-			handleMu = m
-		}
-	}
 	// the exported Subscribe / Unsubscribe are subscribe / unsubscribe at application level and nothing else
 	delegates := func(name, to string) bool {
-		in := mk(0)
-		if !in.run(busType, name, nil) {
+		ev, found := trace(name, 0)
+		if !found {
 			return false
 		}
 		n, ok := 0, true
 		depth0 := true
-		for _, e := range in.ev {
+		for _, e := range ev {
 			if e.kind == "inline" && e.name == to && depth0 {
 				n++
-				ok = ok && e.level == in.levelConst[1] && !e.cond
+				ok = ok && e.level == levelConst[1] && !e.cond
 				depth0 = false
 			}
 		}
-		seq, _ := lockSeq(in.ev)
+		seq, _ := lockSeq(ev)
 		if n != 1 || !ok || len(seq) != 2 {
 			note("events.%s is not %s at application level and nothing else", name, to)
 			return false
@@ -212,18 +587,25 @@ func genEventBus(outDir string) (string, error) {
 	// ---- Publish, interpreted twice (abstract list [core, application] and [application, core])
 	muReleased, fourOps, spans, snapshot, coreSync, appAsync, coreFirst, blocksOnly := true, true, true, true, true, true, true, true
 	for order := 0; order < 2; order++ {
-		in := mk(order)
-		if !in.run(busType, "Publish", nil) {
+		ev, found := trace("Publish", order)
+		if !found {
 			note("method events.Publish not found")
 			muReleased, fourOps, spans, snapshot, coreSync, appAsync, coreFirst, blocksOnly = false, false, false, false, false, false, false, false
 			break
 		}
-		seq, condLock := lockSeq(in.ev)
-		// the four lock operations, in this order; the snapshot may be taken under a read lock
+		seq, condLock := lockSeq(ev)
+		roleCond := false // a lock operation of a ROLE mutex on a conditional path
+		for _, e := range ev {
+			if (e.kind == "lock" && e.cond || e.kind == "leak") && (e.name == listMu || e.name == handleMu) {
+				roleCond = true
+			}
+		}
+		// the four lock operations on the role mutexes, in this order; the snapshot may be taken under a read lock.
+		// What is left of the lock operations of other mutexes after the leaf sections were taken out is in seq too.
 		want := []string{"Lock:" + listMu, "Unlock:" + listMu, "Lock:" + handleMu, "Unlock:" + handleMu}
 		wantR := []string{"RLock:" + listMu, "RUnlock:" + listMu, "Lock:" + handleMu, "Unlock:" + handleMu}
 		same := func(a, b []string) bool { return strings.Join(a, ",") == strings.Join(b, ",") }
-		if !(same(seq, want) || same(seq, wantR)) || condLock {
+		if !rolesOK || !(same(seq, want) || same(seq, wantR)) || condLock {
 			fourOps = false
 			// is at least the release of the list mutex before the acquisition of the dispatch mutex?
 			iu, ih := -1, -1
@@ -235,16 +617,16 @@ func genEventBus(outDir string) (string, error) {
 					ih = i
 				}
 			}
-			if iu < 0 || ih < 0 || iu > ih || condLock {
+			if !rolesOK || iu < 0 || ih < 0 || iu > ih || roleCond {
 				muReleased = false
 			}
 			if order == 0 {
-				note("Publish: lock operations are %v (conditional: %v), expected %v", seq, condLock, want)
+				note("Publish: lock operations (leaf sections of additional mutexes aside) are %v (conditional: %v), expected %v", seq, condLock, want)
 			}
 		}
 		// positions
 		hl, hu := -1, -1
-		for i, e := range in.ev {
+		for i, e := range ev {
 			if e.kind == "lock" && e.name == handleMu {
 				if e.op == "Lock" && hl < 0 {
 					hl = i
@@ -253,10 +635,27 @@ func genEventBus(outDir string) (string, error) {
 					hu = i
 				}
 			}
+			if (e.kind == "lock" || e.kind == "exitlock") && e.name == handleMu && e.op == "Lock" {
+				// nothing but the dispatch mutex itself may be held by a publisher that waits for it
+				for _, m := range e.held {
+					if m == listMu || isExtra(m) {
+						muReleased = false
+						if order == 0 {
+							note("Publish: %s is held when the dispatch mutex is acquired", m)
+						}
+					}
+				}
+			}
+			if (e.kind == "lock" || e.kind == "exitlock") && e.name != listMu && e.name != handleMu {
+				blocksOnly = false
+				if order == 0 && (e.op == "Lock" || e.op == "RLock") {
+					note("Publish: blocks on %s, which is neither the list mutex nor the dispatch mutex nor a leaf lock", e.name)
+				}
+			}
 		}
 		var deliveries []aevent
 		var dIdx []int
-		for i, e := range in.ev {
+		for i, e := range ev {
 			switch e.kind {
 			case "deliver":
 				deliveries = append(deliveries, e)
@@ -274,6 +673,11 @@ func genEventBus(outDir string) (string, error) {
 				if order == 0 {
 					note("Publish: operation the generator cannot account for (possibly blocking): %s", e.name)
 				}
+			case "faccess":
+				blocksOnly = false
+				if order == 0 {
+					note("Publish: field %s of the bus is accessed outside a leaf section", e.name)
+				}
 			case "hwrite":
 				snapshot = false
 			case "hread":
@@ -290,9 +694,9 @@ func genEventBus(outDir string) (string, error) {
 			}
 		}
 		if hu >= 0 {
-			for _, e := range in.ev[hu+1:] {
-				if e.kind != "inline" {
-					spans = false // something happens after the dispatch mutex is released
+			for _, e := range ev[hu+1:] {
+				if e.kind != "inline" || e.async {
+					spans = false // something besides leaf sections happens after the dispatch mutex is released
 				}
 			}
 		} else {
@@ -311,13 +715,13 @@ func genEventBus(outDir string) (string, error) {
 				snapshot = false
 			}
 			switch d.level {
-			case in.levelConst[0]:
+			case levelConst[0]:
 				nCore++
 				iCore = dIdx[k]
 				if d.op != "plain" {
 					coreSync = false
 				}
-			case in.levelConst[1]:
+			case levelConst[1]:
 				nApp++
 				iApp = dIdx[k]
 				if d.op != "go" {
@@ -339,10 +743,10 @@ func genEventBus(outDir string) (string, error) {
 		}
 	}
 	if !muReleased {
-		note("Publish: the list mutex is not released before the dispatch mutex is acquired")
+		note("Publish: the list mutex is not released before the dispatch mutex is acquired (or another mutex is held at that moment)")
 	}
 	if !spans {
-		note("Publish: the handler invocations are not enclosed by the dispatch mutex, released last")
+		note("Publish: the handler invocations are not enclosed by the dispatch mutex, with nothing but leaf sections after its release")
 	}
 	if !snapshot {
 		note("Publish: the handlers are not dispatched from a copy of the list made under the list mutex")
@@ -360,7 +764,7 @@ func genEventBus(outDir string) (string, error) {
 	// ---- package spine: the local device is put on / taken off the core level
 	coreEverySetup, coreUnsubOnlyWhenEmpty, coreSites := false, false, false
 	{
-		in := mk(0)
+		in := mkPlain(0)
 		if in.run("DeviceLocal", "SetupRemoteDevice", nil) {
 			uncond := 0
 			for _, e := range in.ev {
@@ -373,7 +777,7 @@ func genEventBus(outDir string) (string, error) {
 		if !coreEverySetup {
 			note("SetupRemoteDevice does not reach `Events.subscribe(core level, the local device)` on every path")
 		}
-		in = mk(0)
+		in = mkPlain(0)
 		if in.run("DeviceLocal", "RemoveRemoteDevice", nil) {
 			n, guarded := 0, 0
 			for _, e := range in.ev {
@@ -466,21 +870,38 @@ func genEventBus(outDir string) (string, error) {
 	w := func(doc, name string, v bool) {
 		fmt.Fprintf(&b, "/-- %s -/\ndef %s : Bool := %v\n\n", doc, name, v)
 	}
-	w("running Publish (helpers inlined) releases the list mutex before it acquires the dispatch mutex: a publisher that waits for the dispatch mutex does not hold the list mutex", "muReleasedBeforeMuHandle", muReleased)
-	w("the handler invocations of Publish lie between the acquisition and the release of the dispatch mutex, and nothing happens after the release", "muHandleSpansDispatch", spans)
-	w("the lock operations of Publish (helpers inlined, deferred calls run at the end of their frame) are exactly: lock list mutex, unlock it, lock dispatch mutex, unlock it — none on a conditional path", "publishFourLockOps", fourOps)
+	w("running Publish (helpers inlined) releases the list mutex before it acquires the dispatch mutex: a publisher that waits for the dispatch mutex does not hold the list mutex — nor any additional mutex of the bus. (List mutex = the mutex held at the accesses to the handler list, dispatch mutex = the mutex held at the handler invocations; by role, not by name)", "muReleasedBeforeMuHandle", muReleased)
+	w("every handler invocation and every spawn of Publish lies between the acquisition and the release of the dispatch mutex; after the release there is no handler invocation, no access to the handler list, no `go` — nothing but leaf sections of additional mutexes (see stateIsTwoMutexesAndList) and the return", "muHandleSpansDispatch", spans)
+	w("the lock operations of Publish (helpers inlined, deferred calls run at the end of their frame) on the list mutex and the dispatch mutex are exactly: lock list mutex, unlock it, lock dispatch mutex, unlock it — none on a conditional path; every other lock operation of Publish belongs to a leaf section of an additional mutex (see stateIsTwoMutexesAndList), inside which no other lock is taken", "publishFourLockOps", fourOps)
 	w("under the list mutex Publish copies the handler list (make+copy or Clone) and every handler it invokes is taken from that copy; the list itself is only read under the mutex, by len / copy / Clone", "snapshotIsCopy", snapshot)
 	w("for either order of the list, a core-level item is invoked exactly once, by a plain call", "coreSynchronous", coreSync)
 	w("for either order of the list, an application-level item is started exactly once, with `go`", "applicationAsync", appAsync)
 	w("for either order of the list, the core-level item is invoked before the application-level item is started", "coreLevelFirst", coreFirst)
-	w("subscribe is one critical section under the list mutex: write lock first, unlock last, no other lock, no handler invocation, no blocking or unaccounted call", "subscribeOnlyMu", subscribeOnlyMu)
-	w("unsubscribe is one critical section under the list mutex: write lock first, unlock last, no other lock, no handler invocation, no blocking or unaccounted call", "unsubscribeOnlyMu", unsubscribeOnlyMu)
+	w("subscribe is one critical section under the list mutex: write lock first, unlock last, no other lock except leaf sections of additional mutexes (see stateIsTwoMutexesAndList), no handler invocation, no blocking or unaccounted call", "subscribeOnlyMu", subscribeOnlyMu)
+	w("unsubscribe is one critical section under the list mutex: write lock first, unlock last, no other lock except leaf sections of additional mutexes (see stateIsTwoMutexesAndList), no handler invocation, no blocking or unaccounted call", "unsubscribeOnlyMu", unsubscribeOnlyMu)
 	w("the exported Subscribe / Unsubscribe are subscribe / unsubscribe at application level and nothing else", "exportedDelegate", exportedDelegate)
-	w("Publish (helpers inlined) performs nothing but make / len / copy / Clone, the four mutex operations and the handler invocations: no WaitGroup / Cond wait, no channel operation, no select, no call the generator cannot account for — it blocks on nothing but the two mutexes", "publishBlocksOnlyOnTheTwoMutexes", blocksOnly)
-	w("the state of the bus is exactly two mutexes and the handler list", "stateIsTwoMutexesAndList", stateOK)
+	w("Publish (helpers inlined) performs nothing but make / len / copy / Clone, the four operations on the list mutex and the dispatch mutex, the handler invocations and leaf sections of additional mutexes: no WaitGroup / Cond wait, no channel operation, no select, no call the generator cannot account for — it blocks on nothing but the two mutexes and leaf locks, which nobody holds for ever: EVERY critical section of such a mutex, in every method of the bus type, was checked to be a leaf section (see stateIsTwoMutexesAndList)", "publishBlocksOnlyOnTheTwoMutexes", blocksOnly)
+	w("the state of the bus is the list mutex, the dispatch mutex (two different mutexes) and the handler list; besides them at most (a) LEAF LOCKS: further sync.Mutex / sync.RWMutex fields every critical section of which, in every method of the bus type (exported or not, helpers inlined), is closed on every path by the method that opened it and contains no handler invocation, no access to the handler list, no lock operation on any mutex, no blocking operation, no `go`, no call the generator cannot account for — and (b) fields that are accessed only inside the sections of one such leaf lock (and do not escape from them); no embedded field; no use of these mutexes or fields anywhere in package spine that the interpreter did not reach. (On a bus with exactly two mutexes and the list, (a) and (b) are empty.)", "stateIsTwoMutexesAndList", stateOK)
 	w("package spine: SetupRemoteDevice reaches `Events.subscribe(core level, the local device)` on every path (directly or through helpers)", "coreSubscribedOnEverySetup", coreEverySetup)
 	w("package spine: RemoveRemoteDevice unsubscribes the local device exactly once, on the path guarded by `len(remoteDevices) == 0` (directly or through helpers)", "coreUnsubscribedOnlyWhenNoPeerLeft", coreUnsubOnlyWhenEmpty)
 	w("package spine: the unexported Events.subscribe / Events.unsubscribe are called once each outside events.go, in SetupRemoteDevice / RemoveRemoteDevice or a helper only they call", "coreLevelSitesAreThoseTwo", coreSites)
+	if len(extras)+len(otherFields) > 0 { // what was tolerated (or not), by name
+		fmt.Fprintf(&b, "-- info: list mutex = %s, dispatch mutex = %s (by role)\n", listMu, handleMu)
+		for _, x := range extras {
+			var fs []string
+			for _, f := range otherFields {
+				if owner[f] == x && confined[f] {
+					fs = append(fs, f)
+				}
+			}
+			fmt.Fprintf(&b, "-- info: additional mutex %s: leaf lock = %v, state confined to its sections: %v\n", x, leaf[x], fs)
+		}
+		for _, f := range otherFields {
+			if owner[f] == "" && confined[f] {
+				fmt.Fprintf(&b, "-- info: field %s %s of the bus is not accessed by any method of the bus\n", f, otherType[f])
+			}
+		}
+	}
 	for _, n := range notes {
 		fmt.Fprintf(&b, "-- note: %s\n", n)
 	}
